@@ -15,6 +15,10 @@ Init ==
     \* relative to error sites")
     \/ \E d \in {"json", "csv", "vpl"}, w \in 2..4, sh \in 0..3, n \in RunLens, site \in {"start", "middle", "end"} :
             c = <<"mbrun", d, w, sh, n, site>> /\ Emit([k |-> "mbrun", dec |-> d, width |-> w, shift |-> sh, len |-> n, site |-> site])
+    \* numbers that are no ordinary numbers, in every numeric argument position of the filters (NaN compares false with
+    \* everything: a range check written with the wrong polarity lets it through)
+    \/ \E tok \in {"NaN", "nan", "inf", "-inf", "infinity", "1e999", "-1e999", "-0", "0x10", "1_0", "1e-400", "+5"}, pos \in 1..6 :
+            c = <<"vplnum", tok, pos>> /\ Emit([k |-> "vplnum", tok |-> tok, pos |-> pos])
     \* CSV tables by their SHAPE: a header of h fields followed by 1..4 rows of 0..4 fields each (ragged rows in every order:
     \* a reader that carries state from row to row sees every succession of lengths)
     \/ \E h \in 1..3, rows \in UNION { [1..n -> 0..4] : n \in 1..4 } : c = <<"csvrows", h, rows>> /\ Emit([k |-> "csvrows", header |-> h, rows |-> rows])
